@@ -2302,7 +2302,7 @@ class VM:
             result = callee(*args)
             self.stack.append(result if result is not None else UNDEFINED)
         else:
-            raise JSTypeError(f"{callee} is not a function")
+            raise JSTypeError(f"{to_string(callee)} is not a function")
 
     def _call_method(
         self, method: JSValue, this_val: JSValue, args: List[JSValue]
@@ -2320,7 +2320,7 @@ class VM:
             result = method(*args)
             self.stack.append(result if result is not None else UNDEFINED)
         else:
-            raise JSTypeError(f"{method} is not a function")
+            raise JSTypeError(f"{to_string(method)} is not a function")
 
     def _call_callback(
         self, callback: JSValue, args: List[JSValue], this_val: JSValue = None
@@ -2396,7 +2396,7 @@ class VM:
             result = callback(*args)
             return result if result is not None else UNDEFINED
         else:
-            raise JSTypeError(f"{callback} is not a function")
+            raise JSTypeError(f"{to_string(callback)} is not a function")
 
     def _invoke_js_function(
         self,
@@ -2493,7 +2493,7 @@ class VM:
             result = constructor._call_fn(*args)
             self.stack.append(result if result is not None else UNDEFINED)
         else:
-            raise JSTypeError(f"{constructor} is not a constructor")
+            raise JSTypeError(f"{to_string(constructor)} is not a constructor")
 
     def _get_source_location(self) -> Tuple[Optional[int], Optional[int]]:
         """Get the source location (line, column) for the current instruction."""
